@@ -53,19 +53,31 @@ def badProduced (env : Env) (f : Fn) (body : BodyOut) : Bool :=
   | _, _ => false
 
 /-- C04: every annotated parameter has a conforming used value, star values conform, the result conforms -/
+def goodParam (env : Env) (kw : List (NameId × Val)) (p : Param) : Bool :=
+  match p.ann, usedValue kw p with
+  | some a, some v => conforms env a v
+  | _, _ => false
+def starAnnotated (f : Fn) : Bool :=
+  (match f.star with | some p => p.ann.isSome | none => true) && (match f.dstar with | some p => p.ann.isSome | none => true)
 def allConforming (env : Env) (f : Fn) (args : List Val) (kw : List (NameId × Val)) (body : BodyOut) : Bool :=
-  f.plain.all (fun p => match p.ann, usedValue kw p with | some a, some v => conforms env a v | _, _ => false) &&
+  f.plain.all (goodParam env kw) && starAnnotated f &&
   !badStar env f args && !badDStar env f kw &&
   (match body, f.retAnn with
    | .ret v, some a => f.flavour == .generator || conforms env a v
    | .raises _, some _ => true
    | _, none => false)
 
-/-- C06: some annotation is missing or is a generic without type arguments -/
+/-- C06: the annotation is missing or is a generic without type arguments -/
+def incompleteAnn : Option Ann → Bool
+  | none => true
+  | some (.bare _) => true
+  | _ => false
+/-- C06: some parameter (declared, *args or **kwargs) has an incomplete annotation -/
 def incompleteParam (f : Fn) : Bool :=
-  f.withoutSelf.any (fun p => match p.ann with | none => true | some a => (match a with | .bare _ => true | _ => false))
-def incompleteReturn (f : Fn) : Bool :=
-  match f.retAnn with | none => true | some a => (match a with | .bare _ => true | _ => false)
+  f.plain.any (fun p => incompleteAnn p.ann) ||
+  (match f.star with | some p => incompleteAnn p.ann | none => false) ||
+  (match f.dstar with | some p => incompleteAnn p.ann | none => false)
+def incompleteReturn (f : Fn) : Bool := incompleteAnn f.retAnn
 
 /-- the call passes no declared parameter positionally -/
 def keywordCall (t : Truth) (args : List Val) : Bool := args.length ≤ t.implicit
